@@ -452,6 +452,7 @@ class RaggedView2:
         mask |= (start >= self.lengths) & (step > 0) # start is  after end and step is negative
         mask |= (stop <= 0) & (step > 0) # stop is before 0 and step is positive
         mask |= (stop >= self.lengths) & (step < 0) # stop is after end and step is negative
+        mask |= (self.lengths == 0) # an empty row stays empty
         start = np.maximum(np.minimum(start, self.lengths-1),
                            0) #put start in range
         d = 0 if step >= 0 else -1
